@@ -145,7 +145,7 @@ def s2(chk: Check, proj: Project, w) -> None:
     if g is None:
         raise AnalysisError("_normalize_slot_fills: gen_escaped_content_func vanished")
     cvar = params(g)[0]
-    reuse = [s for s in stmts(g) if isinstance(s, ast.Assign) and norm(s.targets[0]) == "content_func" and norm(s.value) == f"{cvar}.content_func"]
+    reuse = [s for s in stmts(g) if isinstance(s, ast.Assign) and isinstance(s.targets[0], ast.Name) and norm(s.value) == f"{cvar}.content_func"]
     for s in reuse:
         atoms = flatten_conj(path_conditions(s))
         # at the reuse site we must know: isinstance(content, Slot) and content.escaped
